@@ -438,6 +438,7 @@ def _single(fn):
 
 LOWER, LOWER_MULTI = _single(str.lower)
 UPPER, UPPER_MULTI = _single(str.upper)
+FOLD, FOLD_MULTI = _single(str.casefold)
 _PRED_CACHE = {}
 DOMAIN = 256  # general symbolic characters range over code points 0..DOMAIN-1
 
@@ -722,7 +723,10 @@ class SymStr:
         return SymStr(out)
 
     def casefold(self):
-        raise Unsupported("casefold")
+        out = []
+        for c in self.cps:
+            out += _map(c, FOLD, FOLD_MULTI, "casefold")
+        return SymStr(out)
 
     def swapcase(self):
         raise Unsupported("swapcase")
